@@ -195,17 +195,21 @@ func (x *Exec) doAlloc(st *State, a *ssa.Alloc) Value {
 	if at, ok := el.Underlying().(*types.Array); ok {
 		// arrays always live in element memory so that they can be sliced
 		r := x.allocRef(st, "arr_"+a.Comment)
+		x.initWrite = true
 		for _, lf := range flatten(at.Elem()) {
 			cur := x.heapCurE(st, "M", at.Elem(), lf)
 			x.heapSet(st, "M", at.Elem(), lf, mkStore(cur, r, zeroTerm(arrSort(lf.Sort))))
 		}
+		x.initWrite = false
 		p := &Ptr{Kind: pArr, Obj: r, Base: at.Elem(), Sub: el}
 		return Value{T: a.Type(), L: []Term{r}, P: p}
 	}
 	if a.Heap {
 		r := x.allocRef(st, a.Comment)
 		p := &Ptr{Kind: pHeap, Obj: r, Base: el, Off: 0, Sub: el}
+		x.initWrite = true
 		x.store(st, p, zeroValue(el))
+		x.initWrite = false
 		return Value{T: a.Type(), L: []Term{r}, P: p}
 	}
 	x.ck.cellCtr++
@@ -551,7 +555,9 @@ func (x *Exec) doConvert(st *State, c *ssa.Convert) Value {
 			if b, ok := sl.Elem().Underlying().(*types.Basic); ok && b.Kind() == types.Uint8 {
 				st.assume(Term{fmt.Sprintf("(forall ((i Int)) (=> (and (<= 0 i) (< i %s)) (= (select %s i) (sbyte %s i))))", n.S, na.S, v.one().S), sBool})
 			}
+			x.initWrite = true
 			x.heapSet(st, "M", sl.Elem(), lf, mkStore(cur, r, na))
+			x.initWrite = false
 		}
 		// an empty string converts to an empty, non-nil slice
 		return mkSliceVal(to, r, tZero, n, n)
@@ -681,10 +687,12 @@ func (x *Exec) doMakeSlice(st *State, m *ssa.MakeSlice) Value {
 		x.allocBound(st, m, cp, sl.Elem())
 	}
 	r := x.allocRef(st, "slice")
+	x.initWrite = true
 	for _, lf := range flatten(sl.Elem()) {
 		cur := x.heapCurE(st, "M", sl.Elem(), lf)
 		x.heapSet(st, "M", sl.Elem(), lf, mkStore(cur, r, zeroTerm(arrSort(lf.Sort))))
 	}
+	x.initWrite = false
 	return mkSliceVal(m.Type(), r, tZero, ln, cp)
 }
 
